@@ -62,7 +62,7 @@ def mk_permute(t, p, dims, api='permute', variant=None, expr=False):
     params = {'type': t, 'perm': list(p), 'dims': list(dims), 'api': api, 'expr': expr}
     if variant:
         params['variant'] = variant
-        params['or_group'] = '%s_%s_%s_%s' % (api, t, ''.join(map(str, p)), 'x'.join(map(str, dims)))
+        params['or_group'] = '%s_%s_%s_%s%s' % (api, t, ''.join(map(str, p)), 'x'.join(map(str, dims)), '_expr' if expr else '')
     return Witness('%s_%s_%s_%s%s%s' % (api, t, ''.join(map(str, p)), 'x'.join(map(str, dims)), '_' + variant if variant else '', '_expr' if expr else ''),
                    'permute.' + api + ('.expr' if expr else ''), params, wit, ref, regions, stages, obl)
 
@@ -135,6 +135,12 @@ def witnesses(tier, seed):
                 if rank <= 4 and (tier != 'quick' or pi % 3 == 0):
                     W.append(mk_permute(tt, p, dims, expr=True))
                     W.append(mk_roundtrip(tt, p, dims))
+                if rank <= 4 and (tier != 'quick' or pi % 2 == 0 or rank <= 3):
+                    # the legacy API on an expression argument has its own element-wise kernel (permutation_impl for AbstractTensor);
+                    # it must agree with whichever reading its tensor overload implements
+                    W.append(mk_permute(tt, p, dims, api='permutation', variant='p', expr=True))
+                    if inv(list(p)) != list(p):
+                        W.append(mk_permute(tt, p, dims, api='permutation', variant='pinv', expr=True))
     if tier != 'quick':
         perms6 = list(itertools.permutations(range(6)))
         for p in rng.sample(perms6, 60):
